@@ -4,14 +4,17 @@ import json
 from .. import common, translate, imp_translate
 
 
-def preamble(run, module, theorems):
-    try:
-        text, info, *_ = translate.generate()
-        translate.write_gentables(text)
-    except translate.TranslateError as e:
-        run.translator_error(str(e))
+def preamble(run, module, theorems, needs=("into_msg", "remote", "features")):
+    """needs: the parts of the run-time library tables (GenLib) this property's model depends on; a part that cannot be
+    translated is an obligation broken for those properties only"""
+    translate.regen_tables(run)
     try:
         translate.write_genlib(translate.generate_lib())
+        for part, msg in translate.LAST_LIB.get("errors", {}).items():
+            if part in needs:
+                run.translator_error("run-time library tables (%s): %s" % (part, msg))
+            else:
+                run.notes.append("run-time library tables (%s), not used by this property: %s" % (part, msg))
     except translate.TranslateError as e:
         run.translator_error("run-time library tables: " + str(e))
     regen_imp(run)
